@@ -461,6 +461,15 @@ def execute(ctx, case: dict) -> None:
     if case.get("transforms") and cls in ("Acl", "AceGroup", "AddrGroup", "Ace", "Remark", "AddressAg", "Address"):
         obj = _build(case)
         obj.note = {"owner": "user2"}
+        if rng.random() < 0.5:
+            # identifiers chosen by the caller, in spellings a UUID parser would also take (upper case, braces, urn, bare hex)
+            custom = ["ABCDEF01-2345-6789-ABCD-EF0123456789", "{12345678-1234-5678-1234-567812345678}",
+                      "urn:uuid:12345678-1234-5678-1234-567812345679", "0123456789abcdef0123456789ABCDEF", "custom-id-1"]
+            obj.uuid = rng.choice(custom)
+            if cls in ("Acl", "AceGroup"):
+                for n, item in enumerate(_flat(obj.items)[:3]):
+                    item.uuid = f"{n}" * 8 + "-AAAA-BBBB-CCCC-" + f"{n}" * 12
+            ctx.count("caller_chosen_identifiers")
         if cls in ("Acl", "AceGroup", "AddrGroup"):
             for n, item in enumerate(_flat(obj.items) if cls != "AddrGroup" else obj.items):
                 item.note = {"n": n}
@@ -534,6 +543,10 @@ def gen_case(rng):
         case["attach_members"] = True
     if cls in ("Ace", "Acl", "AceGroup", "Address", "AddressAg") and rng.random() < 0.3:
         case["kwargs"] = dict(case["kwargs"], max_ncwb=rng.choice([20, 30, 17]))  # a non-default limit must survive rebuilds
+    if cls == "AceGroup" and rng.random() < 0.3:
+        # a hand-made, nameless block that carries a group_by prefix and starts with a heading remark
+        case["text"] = "remark = HEAD of the block\n" + case["text"]
+        case["kwargs"] = dict(case["kwargs"], group_by="= ")
     menu = MUTATIONS.get(cls, [])
     case["mutations"] = [rng.choice(menu) for _ in range(rng.randint(1, 4))] if menu else []
     if cls in ("Acl", "AceGroup", "AddrGroup") and rng.random() < 0.3:
